@@ -211,6 +211,12 @@ func (c *EvalCtx) eval(e Expr, want *Sort) (Val, error) {
 		if fn, ok := x.w.specs.Fns[n.Name]; ok && len(fn.Params) == 0 {
 			return c.callSpecFn(fn, nil)
 		}
+		if x.rootFn != nil && x.rootFn.Pkg != nil {
+			// a package-level variable of the package of the function under verification
+			if g, ok := x.rootFn.Pkg.Members[n.Name].(*ssa.Global); ok {
+				return x.loadAtQuiet(c.st, x.globalAddr(g)), nil
+			}
+		}
 		if v, ok := x.atCallArgs[n.Name]; ok {
 			// inside an `at call` clause: a parameter name of the callee denotes the argument passed
 			return v, nil
@@ -701,6 +707,20 @@ func (c *EvalCtx) evalCall(n ECall, want *Sort) (Val, error) {
 		}
 		name, as := x.elemArr(sl.Elem(), k, es[k])
 		return scalar(as.Val, "(select "+x.heapGet(c.st, name, as)+" "+v.L[0]+")"), nil
+	case "deref":
+		// deref(p): the value a pointer to a non-struct value points to
+		v, err := arg(0, nil)
+		if err != nil {
+			return Val{}, err
+		}
+		pt, ok := v.GT.(*types.Pointer)
+		if !ok && v.GT != nil {
+			pt, ok = v.GT.Underlying().(*types.Pointer)
+		}
+		if !ok || len(v.L) != 1 {
+			return Val{}, c.errf("deref of a non-pointer")
+		}
+		return x.loadAtQuiet(c.st, Addr{K: AKPtr, Ref: v.L[0], T: pt.Elem()}), nil
 	case "base":
 		v, err := arg(0, nil)
 		if err != nil {
@@ -944,6 +964,19 @@ func (c *EvalCtx) evalCall(n ECall, want *Sort) (Val, error) {
 			return boolVal("false"), nil
 		}
 		return boolVal("(fp.isInfinite " + v.One() + ")"), nil
+	case "isPosInf", "isNegInf":
+		v, err := arg(0, nil)
+		if err != nil {
+			return Val{}, err
+		}
+		if v.S[0].K != SFP {
+			return boolVal("false"), nil
+		}
+		sign := "fp.isPositive"
+		if n.Fn == "isNegInf" {
+			sign = "fp.isNegative"
+		}
+		return boolVal("(and (fp.isInfinite " + v.One() + ") (" + sign + " " + v.One() + "))"), nil
 	case "isNegZero":
 		v, err := arg(0, nil)
 		if err != nil {
